@@ -73,8 +73,23 @@ def load(debug_assertions=True, repo=None):
 
 
 def build(repo, cfg, fpath):
+    """Serialised per target directory (checks may be run concurrently)."""
+    import fcntl
+
     ensure_built()
     tdir = os.path.join(CACHE, "target-da%d" % (1 if cfg["debug_assertions"] else 0))
+    os.makedirs(CACHE, exist_ok=True)
+    with open(tdir + ".lock", "w") as lk:
+        fcntl.flock(lk, fcntl.LOCK_EX)
+        try:
+            if os.path.exists(fpath):
+                return
+            _build_locked(repo, cfg, fpath, tdir)
+        finally:
+            fcntl.flock(lk, fcntl.LOCK_UN)
+
+
+def _build_locked(repo, cfg, fpath, tdir):
     tmp_out = fpath + ".tmp.%d" % os.getpid()
     env = dict(os.environ)
     env.update(
